@@ -12,6 +12,7 @@ import (
 func init() {
 	register(&PropDef{ID: "C17", Title: "Command-line splitting is total, byte-preserving and reversible for quoted input", Rules: rulesC17,
 		Explanation: "Decided (structural necessary conditions, varutil.ReadArguments and argscope): R1 predicate abstraction over the joint state (isEscaped, isSeparated, emptiness of args): at every `args[len(args)-1]` the argument list is non-empty in every reachable abstract state (no index -1 panic, no gluing onto a previous argument's slot that does not exist); R2 no integer->string conversion of a value derived from an input byte unless branch facts bound it below 0x80 on every incoming edge (bytes are appended as bytes, not re-encoded as runes); R3 every Read on the input uses a buffer of constant length 1 and the reader is handed to nothing else (reading stops exactly at the command's newline); R4 every cycle of the CFG contains a Read whose failing edge leaves the loop (termination on finite input); R5 every tail slice x[:len(x)-k] is dominated by strings.HasSuffix(x, s) with len(s) >= k; R6 the escape flag covers exactly one byte: it is true on a back edge of the main loop only on the edge that has just consumed the backslash; R7 the heredoc body is trimmed only with a constant cutset of blanks (space, tab); R8 positional arguments reach the scope unchanged (no prefix trimming) and are numbered $0,$1,... in order, named ones are split at the first '='. " +
+			"Added in round 2: R3 also covers the callers — every reader handed to ReadArguments in the module is the caller's own reader, never a read-ahead wrapper (bufio.NewReader ...) created for the call, and varutil.SplitArguments returns nothing but ReadArguments' results (no second tokeniser); R8 also requires that no iteration of InjectArgs' argument loop goes round without a SetValue (a skipped argument shifts the positional numbering). " +
 			"NOT decided: the tokenisation semantics as a whole (quotes, escapes, heredoc content), reversibility against a reference quoting function.",
 	})
 }
@@ -147,6 +148,7 @@ func rulesC17(c *Ctx) {
 	}
 	c.Check(okUse, "R3", "the input reader is only Read from", f.Pos(), "no wrapper (bufio, ReadAll, ...)", "the reader is handed to something else that may read ahead")
 	c.Floor("R3", n3, 2)
+	ruleSplitterCallers(c, f)
 
 	// ---- R4 every cycle consumes input -------------------------------------------------------------
 	{
@@ -409,6 +411,99 @@ func ruleArgMapping(c *Ctx) {
 		}
 	}
 	c.Check(okS, "R8", "named arguments split at the first '='", inj.Pos(), "strings.Index(arg, \"=\")", "name/value are not separated at the first '=' (a value containing '=' is cut)")
+	// every argument is mapped: no iteration of the argument loop goes round without a SetValue
+	hasSet := func(b *ssa.BasicBlock) bool {
+		for _, in := range b.Instrs {
+			if ci := callInfo(in, b, 0); ci != nil && ci.Method != nil && ci.Method.Name() == "SetValue" {
+				return true
+			}
+		}
+		return false
+	}
+	skips := ""
+	loops := 0
+	for _, e := range loopBackEdges(inj) {
+		header := e[1]
+		loops++
+		seen := map[*ssa.BasicBlock]bool{}
+		var work []*ssa.BasicBlock
+		for _, sb := range header.Succs {
+			if inSameLoop(inj, header, sb) {
+				work = append(work, sb)
+			}
+		}
+		for len(work) > 0 {
+			b := work[len(work)-1]
+			work = work[:len(work)-1]
+			if b == header {
+				skips = "an iteration of the argument loop returns to the loop head without having stored the argument"
+				continue
+			}
+			if seen[b] || hasSet(b) {
+				continue
+			}
+			seen[b] = true
+			work = append(work, b.Succs...)
+		}
+	}
+	c.Check(skips == "" && loops > 0, "R8", "every argument is mapped to a key", inj.Pos(), "each iteration passes SetValue (or returns)",
+		skips+" — a skipped argument (e.g. an empty quoted one) shifts every later positional argument down by one: $1, $2, ... are no longer the arguments in order")
+}
+
+// ruleSplitterCallers (R3, callers): what is handed to ReadArguments is the
+// caller's own reader, never a read-ahead wrapper created for the call; and
+// SplitArguments is nothing but ReadArguments on the string.
+func ruleSplitterCallers(c *Ctx, ra *ssa.Function) {
+	n := 0
+	readAhead := map[string]bool{"bufio.NewReader": true, "bufio.NewReaderSize": true, "bufio.NewReadWriter": true, "bufio.NewScanner": true, "io.TeeReader": true, "io.MultiReader": true}
+	for _, f := range c.P.AllModuleFuncs() {
+		for _, g := range withClosures(f) {
+			for _, ci := range CallsTo(g, qualName(ra)) {
+				n++
+				bad := ""
+				for _, o := range Origins(ci.Arg(0), FlowOpts{}) {
+					if o.Kind == "call" {
+						name := o.Name
+						if i := strings.Index(name, "#"); i >= 0 {
+							name = name[:i]
+						}
+						if readAhead[name] {
+							bad = "the reader handed to ReadArguments is wrapped in " + name + " for this call"
+						}
+					}
+				}
+				c.Check(bad == "", "R3", "reader handed to ReadArguments in "+fname(g), ci.Pos(), "the caller's own reader (or a reader over the whole string)",
+					bad+" — the wrapper reads ahead past the command's newline and is then dropped: the next call on the same input misses the following command(s)")
+			}
+		}
+	}
+	c.Floor("R3", n, 2)
+	if sa := c.P.Func("varutil", "", "SplitArguments"); sa != nil {
+		calls := CallsTo(sa, qualName(ra))
+		bad := ""
+		var pos token.Pos = sa.Pos()
+		if len(calls) == 0 {
+			bad = "SplitArguments no longer calls ReadArguments"
+		}
+		for _, r := range returnsOf(sa) {
+			if len(r.Results) == 0 {
+				continue
+			}
+			okR := false
+			for _, call := range calls {
+				for _, e := range resultN(call.Value(), 0) {
+					if resolve(r.Results[0]) == e {
+						okR = true
+					}
+				}
+			}
+			if !okR && len(calls) > 0 {
+				bad, pos = "a result of SplitArguments ("+vdesc(resolve(r.Results[0]))+") is not ReadArguments' result", r.Pos()
+			}
+		}
+		c.Check(bad == "", "R3", "varutil.SplitArguments is ReadArguments on the string", pos, "every return hands on ReadArguments' results",
+			bad+" — a second tokeniser (e.g. strings.Fields, which also splits at \\v, \\f, U+0085, U+00A0) disagrees with the byte-level splitter on some inputs")
+	}
 }
 
 func unwrapIface(v ssa.Value) ssa.Value {
